@@ -22,7 +22,10 @@ Inductive c03_fact :=
 | FEscrow (kind : string) (module : Z) (d : string) (pending_after balance_after pending_before balance_before : Z)
     (* what the module's escrow account holds in [d] and the sum of the pending entries of this
        claim kind owned by accounts that did not sign, after and before the step *)
-| FRightful (kind : string) (accepted : bool).
+| FRightful (kind : string) (accepted : bool)
+| FAuthorised (a : Z) (cs : coins).
+    (* the only signature material of the transaction that account [a] produced covers a debit of
+       at most [cs] (inner payload / first message, plus the fee): [a] is not among [k_signers] *)
     (* the signer settled a pending entry of his own (per the harness' ghost record of accepted
        messages): was the transaction accepted *)
     (* a staking pool's share token: staking x of the native denom mints x * keep / 10^18 shares *)
@@ -164,10 +167,20 @@ Fixpoint rotate_fact_of (o : Z) (fs : list c03_fact) : option (Z * bool) :=
   | _ :: r => rotate_fact_of o r
   end.
 
+Fixpoint authorised_of (a : Z) (fs : list c03_fact) : option coins :=
+  match fs with
+  | [] => None
+  | FAuthorised a' cs :: r => if a' =? a then Some cs else authorised_of a r
+  | _ :: r => authorised_of a r
+  end.
+
 (* one decreased balance of a user who did not sign: which clause (if any) does it break *)
 Definition coin_clause (c : c03_case) (a : Z) (d : string) (b f : Z) : list string :=
   if (b <=? f) || negb (is_user a) || signed c a then [] else
   let drop := b - f in
+  match authorised_of a (k_facts c) with
+  | Some cs => if drop <=? amount_of cs d then [] else ["debit-exceeds-what-was-signed"]
+  | None =>
   match custody_fact_of a (k_facts c) with
   | Some (FCustody _ benef cs reward legit n mode enabled pw_ok fresh recorded listed as fact) =>
       let share := if fresh then custody_share reward n d else 0 in
@@ -197,6 +210,7 @@ Definition coin_clause (c : c03_case) (a : Z) (d : string) (b f : Z) : list stri
       | Some (_, false) => ["rotation-without-proof"]
       | None => ["coins"]
       end
+  end
   end.
 
 (* claims: per (owner, denom), the net change of the owner's claims (those whose recorded payee
